@@ -199,3 +199,14 @@ func earlierGraphic(z *render.Renderer, vb ivg.ViewBox) {
 	z.AbsQuadTo(moved.MaxX, moved.MinY, moved.MaxX, moved.MaxY)
 	z.RelSmoothQuadTo(1, 1)
 }
+
+// viaLogger returns dst itself or, one time in n, dst behind an
+// ivg.DestinationLogger in either of its two log formats (its output goes to the
+// worker's /dev/null): the logger is a public Destination wrapper and must
+// forward every call unchanged.
+func viaLogger(r *run.Rng, n int, dst ivg.Destination) (ivg.Destination, bool) {
+	if !r.Chance(1, n) {
+		return dst, false
+	}
+	return &ivg.DestinationLogger{Destination: dst, Alt: r.Bool()}, true
+}
